@@ -260,9 +260,7 @@ class Effects:
         if isinstance(fn, ast.Attribute):
             a = fn.attr
             maybe_dt = (not recv) or (DT in recv)
-            maybe_tz = (not recv) or (TZ in recv) or any(
-                isinstance(t, str) and t.startswith("C:") and t.endswith("StaticTzInfo") for t in recv
-            )
+            maybe_tz = (not recv) or (TZ in recv)
             only_str = bool(recv) and all(t in (STR, NONE) for t in recv)
             if a == "astimezone":
                 add("OverflowError", "datetime.astimezone near datetime.min/max")
@@ -283,8 +281,9 @@ class Effects:
                 add("ValueError", "list/str.%s of a missing element" % a)
             elif a in ("group", "groupdict", "groups", "span", "start", "end"):
                 v = fn.value
-                if NONE in recv or (isinstance(v, ast.Call) and isinstance(v.func, ast.Attribute)
-                                    and v.func.attr in ("search", "match", "fullmatch")):
+                if (NONE in recv or (isinstance(v, ast.Call) and isinstance(v.func, ast.Attribute)
+                                     and v.func.attr in ("search", "match", "fullmatch"))) \
+                        and not none_guarded(f, n, v):
                     add("AttributeError", "match object may be None")
             elif a == "fromtimestamp":
                 add("OverflowError", "fromtimestamp out of range")
@@ -327,12 +326,10 @@ class Effects:
                 add("OSError", "open()")
             elif e in ("regex.compile", "re.compile", "regex.sub", "re.sub", "regex.search", "re.search",
                        "regex.match", "re.match", "regex.split", "re.split", "regex.findall"):
-                if n.args and not _is_const_pattern(n.args[0]):
+                if n.args and fold_str(n.args[0], f, self.ix) is None:
                     pt = self.ti.type_of(n.args[0], f)
                     if "X:pattern" not in pt:
                         add("regex.error", "dynamic pattern")
-            elif e == "calendar.monthrange":
-                add("ValueError", "monthrange(bad month)")
         if isinstance(fn, ast.Name) and fn.id == "__strptime" or (isinstance(fn, ast.Name) and fn.id == "strptime" and not callees):
             add("ValueError", "strptime mismatch")
         if excs:
@@ -364,7 +361,7 @@ class Effects:
         sl = n.slice
         if not isinstance(n.ctx, ast.Load):
             return
-        if isinstance(sl, ast.BinOp) and isinstance(sl.op, (ast.Add, ast.Sub)) and isinstance(sl.right, ast.Constant) \
+        if isinstance(sl, ast.BinOp) and isinstance(sl.op, ast.Add) and isinstance(sl.right, ast.Constant) \
                 and isinstance(sl.left, ast.Name):
             idx = sl.left.id
             if idx in loop_index_vars(f) and not bound_guarded(f, n, idx):
@@ -385,7 +382,7 @@ class Effects:
 
     def _deliver(self, f, site, exc, origin, witness, changed):
         """origin = ident of the primitive site where exc is born"""
-        if site.kind in ("prim", "raise", "assert"):
+        if site.kind in ("prim", "raise", "assert", "call"):
             r = self.suppress(site, exc)
             if r:
                 key = (site.ident(), exc)
@@ -486,12 +483,106 @@ def zero_guarded(f, node):
     return False
 
 
-def _is_const_pattern(a):
-    if isinstance(a, ast.Constant):
-        return True
-    if isinstance(a, ast.JoinedStr):
-        return False
+def none_guarded(f, node, recv_expr):
+    """the receiver is known to be truthy / not None where `node` runs"""
+    from .ctx import conjuncts, enclosing_tests
+
+    want = ast.unparse(recv_expr)
+    for test, pol in enclosing_tests(f.node, node):
+        for atom, p in conjuncts(test, pol):
+            if p and ast.unparse(atom) == want:
+                return True
+            if isinstance(atom, ast.Compare) and len(atom.ops) == 1 and ast.unparse(atom.left) == want:
+                c = atom.comparators[0]
+                none = isinstance(c, ast.Constant) and c.value is None
+                if none and ((p and isinstance(atom.ops[0], ast.IsNot)) or (not p and isinstance(atom.ops[0], ast.Is))):
+                    return True
     return False
+
+
+def fold_str(e, f, ix, depth=0):
+    """constant-fold a string expression (literals, %-format, +, "sep".join([...]),
+    names bound exactly once to a foldable value in the function or module); None if not constant"""
+    if depth > 6:
+        return None
+    if isinstance(e, ast.Constant) and isinstance(e.value, str):
+        return e.value
+    if isinstance(e, ast.Name):
+        vals = []
+        g = f
+        while g is not None and not vals:
+            for n in iter_own_nodes(g.node):
+                if isinstance(n, ast.Assign):
+                    for t in n.targets:
+                        if isinstance(t, ast.Name) and t.id == e.id:
+                            vals.append(n.value)
+                elif isinstance(n, (ast.AugAssign, ast.For, ast.comprehension)) and e.id in {
+                        x.id for x in ast.walk(n.target) if isinstance(x, ast.Name)}:
+                    return None
+            if e.id in g.params():
+                return None
+            g = g.parent
+        if not vals:
+            mv = f.module.assigns.get(e.id)
+            if mv and len(mv) == 1:
+                return fold_str(mv[0], f.module.toplevel, ix, depth + 1)
+            ent = ix.lookup_module_attr(f.module, e.id)
+            if isinstance(ent, tuple) and ent[0] == "var" and len(ent[1].assigns.get(ent[2], [])) == 1:
+                return fold_str(ent[1].assigns[ent[2]][0], ent[1].toplevel, ix, depth + 1)
+            return None
+        if len(vals) == 1:
+            return fold_str(vals[0], f, ix, depth + 1)
+        return None
+    if isinstance(e, ast.BinOp) and isinstance(e.op, ast.Add):
+        a, b = fold_str(e.left, f, ix, depth + 1), fold_str(e.right, f, ix, depth + 1)
+        return a + b if a is not None and b is not None else None
+    if isinstance(e, ast.BinOp) and isinstance(e.op, ast.Mod):
+        a = fold_str(e.left, f, ix, depth + 1)
+        if a is None:
+            return None
+        args = e.right.elts if isinstance(e.right, ast.Tuple) else [e.right]
+        vals = [fold_str(x, f, ix, depth + 1) for x in args]
+        if any(v is None for v in vals):
+            return None
+        try:
+            return a % tuple(vals)
+        except Exception:
+            return None
+    if isinstance(e, ast.Call) and isinstance(e.func, ast.Attribute) and e.func.attr == "join" and len(e.args) == 1:
+        sep = fold_str(e.func.value, f, ix, depth + 1)
+        seq = fold_list(e.args[0], f, ix, depth + 1)
+        if sep is not None and seq is not None:
+            return sep.join(seq)
+        return None
+    if isinstance(e, ast.Call) and isinstance(e.func, ast.Attribute) and e.func.attr == "format":
+        base = fold_str(e.func.value, f, ix, depth + 1)
+        vals = [fold_str(x, f, ix, depth + 1) for x in e.args]
+        if base is not None and not e.keywords and all(v is not None for v in vals):
+            try:
+                return base.format(*vals)
+            except Exception:
+                return None
+    return None
+
+
+def fold_list(e, f, ix, depth=0):
+    if isinstance(e, (ast.List, ast.Tuple)):
+        vals = [fold_str(x, f, ix, depth + 1) for x in e.elts]
+        return vals if all(v is not None for v in vals) else None
+    if isinstance(e, ast.Name):
+        vals = []
+        for n in iter_own_nodes(f.node):
+            if isinstance(n, ast.Assign):
+                for t in n.targets:
+                    if isinstance(t, ast.Name) and t.id == e.id:
+                        vals.append(n.value)
+        if len(vals) == 1:
+            return fold_list(vals[0], f, ix, depth + 1)
+        if not vals:
+            mv = f.module.assigns.get(e.id)
+            if mv and len(mv) == 1:
+                return fold_list(mv[0], f.module.toplevel, ix, depth + 1)
+    return None
 
 
 def loop_index_vars(f):
